@@ -148,7 +148,9 @@ class Disposables:
                 raise cancellation  # cancelled when disposing - propagate it after completing
 
             disposing_errors: list[BaseException] = [
-                res for res in disposed if isinstance(res, BaseException)
+                res
+                for res in disposed
+                if isinstance(res, BaseException) and not _handed_back(res, error)
             ]
             if disposing_errors:
                 raise BaseExceptionGroup("Initializing errors", [*exceptions, *disposing_errors])
@@ -174,10 +176,27 @@ class Disposables:
         if cancellation is not None:
             raise cancellation  # cancelled when disposing (or just before) - propagate it after completing
 
-        exceptions: list[BaseException] = [exc for exc in results if isinstance(exc, BaseException)]
+        # exception handed back is going to be propagated as it is by the caller (as `with` does)
+        exceptions: list[BaseException] = [
+            exc
+            for exc in results
+            if isinstance(exc, BaseException) and not _handed_back(exc, exc_val)
+        ]
 
         if len(exceptions) > 1:
             raise BaseExceptionGroup("Disposing errors", exceptions)
 
         elif exceptions:
             raise exceptions[0]
+
+
+def _handed_back(
+    exception: BaseException,
+    handed: BaseException | None,
+    /,
+) -> bool:
+    # exception handed to disposable and raised again by it is not an error of disposing
+    # (cancellation raised again is recreated by asyncio - it is not the same object then)
+    return exception is handed or (
+        isinstance(exception, CancelledError) and isinstance(handed, CancelledError)
+    )
